@@ -174,7 +174,18 @@ class Interp(MiniEval):
                     out.append(str(v.value))
                 else:
                     try:
-                        out.append(str(self.ev(v.value)))
+                        val = self.ev(v.value)
+                        if isinstance(val, (Obj, Sym)):
+                            out.append(repr(val))
+                            continue
+                        if v.conversion == ord('r'):
+                            val = repr(val)
+                        elif v.conversion == ord('s'):
+                            val = str(val)
+                        elif v.conversion == ord('a'):
+                            val = ascii(val)
+                        spec = self.ev(v.format_spec) if v.format_spec is not None else ''
+                        out.append(format(val, spec))
                     except Unsupported:
                         out.append('?')
             return ''.join(out)
@@ -210,6 +221,17 @@ class Interp(MiniEval):
                 if isinstance(v, (int, _re.RegexFlag)):
                     return int(v)
             return Sym(key)
+        if isinstance(base, Obj) and base.has('__super__'):
+            selfobj = base.get('__self__')
+            cq = f'{self.mod.name}.{self.cls}' if self.cls else None
+            if cq:
+                for c in self.src.mro(cq)[1:]:
+                    mn, _, cn = c.partition('.')
+                    if f'{cn}.{attr}' in self.src.mods[mn].functions:
+                        return PkgFunc(self.src.mods[mn], self.src.mods[mn].functions[f'{cn}.{attr}'], cn, bound=selfobj)
+            if attr == '__setattr__' and isinstance(selfobj, Obj):
+                return lambda k_, v_, _o=selfobj: _o.set(k_, v_)
+            raise Unsupported(f'super().{attr}')
         if isinstance(base, Obj):
             if base.has(attr):
                 return base.get(attr)
@@ -229,6 +251,9 @@ class Interp(MiniEval):
                     cnode = self.src.mods[mn].classes[cn]
                     for st in cnode.body:
                         if isinstance(st, ast.Assign) and any(isinstance(t, ast.Name) and t.id == attr for t in st.targets):
+                            return Interp(self.ctx, mn, cn, {}, self.stubs, self.depth + 1, self.shared).ev(st.value)
+                        if isinstance(st, ast.AnnAssign) and isinstance(st.target, ast.Name) and st.target.id == attr \
+                                and st.value is not None:
                             return Interp(self.ctx, mn, cn, {}, self.stubs, self.depth + 1, self.shared).ev(st.value)
             raise Unsupported(f'attribute {attr} of {base!r}')
         if isinstance(base, PkgClass):
@@ -279,7 +304,7 @@ class Interp(MiniEval):
         if text == 'isinstance' and len(args) == 2:
             return self.isinstance(args[0], args[1])
         if text == 'super':
-            return Obj(_name='super', __super__=True)
+            return Obj(_name='super', __super__=True, __self__=self.env.get('self', self.env.get('cls')))
         if text in ('any', 'all') and len(args) == 1:
             vals = [self.truth(x) for x in args[0]]
             return any(vals) if text == 'any' else all(vals)
@@ -303,6 +328,8 @@ class Interp(MiniEval):
                         if f'{cn}.{e.func.attr}' in self.src.mods[mn].functions:
                             callee = PkgFunc(self.src.mods[mn], self.src.mods[mn].functions[f'{cn}.{e.func.attr}'], cn, bound=selfobj)
                             break
+                if callee is None and e.func.attr == '__setattr__' and isinstance(selfobj, Obj):
+                    callee = lambda k_, v_, _o=selfobj: _o.set(k_, v_)      # noqa: E731  (object.__setattr__)
                 if callee is None:
                     raise Unsupported(f'super().{e.func.attr}')
             else:
@@ -351,7 +378,7 @@ class Interp(MiniEval):
                 return Obj(_name=cn_, __exc__=cn_, args=tuple(args))
             obj = Obj(_cls=callee.qual, _name=callee.qual.split('.')[-1])
             init = self.src.find_method(callee.qual, '__init__')
-            if 'css_types.Immutable' in self.src.mro(callee.qual) and init:
+            if 'css_types.Immutable' in self.src.mro(callee.qual) and init and not self.shared.get('real_immutable'):
                 # value classes of the IR: record the constructor arguments as fields instead of running the hashing code
                 m, fn = self.src.func(init)
                 tmp = Interp(self.ctx, m.name, init.split('.')[1], {}, self.stubs, self.depth + 1, self.shared)
@@ -426,7 +453,8 @@ class Interp(MiniEval):
         if cls and 'staticmethod' not in decos:
             first = bound if bound is not None else (PkgClass(f'{mod.name}.{cls}') if 'classmethod' in decos else None)
             if 'classmethod' in decos:
-                first = PkgClass(f'{mod.name}.{cls}') if not isinstance(bound, Obj) else bound
+                dyn = object.__getattribute__(bound, '_cls') if isinstance(bound, Obj) else None
+                first = PkgClass(dyn) if dyn else (bound if isinstance(bound, Obj) else PkgClass(f'{mod.name}.{cls}'))
             if first is None:
                 if not args:
                     raise Unsupported('unbound method call')
@@ -550,10 +578,12 @@ class Interp(MiniEval):
         if isinstance(op, (ast.Is, ast.IsNot)):
             return (a is b) if isinstance(op, ast.Is) else (a is not b)
         if isinstance(a, (Obj, Sym)) or isinstance(b, (Obj, Sym)):
-            if isinstance(op, ast.Eq):
-                return a is b
-            if isinstance(op, ast.NotEq):
-                return a is not b
+            if isinstance(op, (ast.Eq, ast.NotEq)):
+                # objects that model structural equality (bs4 tags compare by markup) carry an __eq_key__
+                same = a is b
+                if isinstance(a, Obj) and isinstance(b, Obj) and a.has('__eq_key__') and b.has('__eq_key__'):
+                    same = a.get('__eq_key__') == b.get('__eq_key__')
+                return same if isinstance(op, ast.Eq) else not same
             if isinstance(op, (ast.In, ast.NotIn)) and isinstance(b, (list, tuple, set, frozenset, dict)):
                 r = any(a is x for x in b)
                 return r if isinstance(op, ast.In) else not r
@@ -566,10 +596,12 @@ class Interp(MiniEval):
         return super().truth(v)
 
 
-def call_function(ctx, qual: str, args=(), kwargs=None, stubs=None, self_obj=None):
+def call_function(ctx, qual: str, args=(), kwargs=None, stubs=None, self_obj=None, options=None):
     """Interpret the package function `qual` ('css_match.CSSMatch.match_tag') on abstract arguments."""
     mod, fn = ctx.src.func(qual)
     parts = qual.split('.')
     cls = parts[1] if len(parts) == 3 else None
-    it = Interp(ctx, mod.name, cls, {}, stubs or {})
+    shared = {'steps': 0}
+    shared.update(options or {})
+    it = Interp(ctx, mod.name, cls, {}, stubs or {}, shared=shared)
     return it.run_function(mod, fn, cls, list(args), dict(kwargs or {}), self_obj)
